@@ -7,7 +7,7 @@
  *
  * Obligation groups (DESIGN 6: a finding masks only itself).  A unit lists 'params': {'GROUP': [1, 2]}:
  *   GROUP 1  bounds + value : every access inside the storage (cbmc pointer checks, always on), m_size <= N,
- *                             contents == reference sequence.  The ELEM lifetime assertions are not compiled in.
+ *                             contents == reference sequence.  The ELEM protocol assertions are switched off (ELEM_TRACKED == 0).
  *   GROUP 2  lifetime       : the ELEM protocol assertions (construct only over RAW, destroy/assign only LIVE|MOVED,
  *                             read only LIVE) + the lifetime half of SV (slots < m_size LIVE, others RAW) + bounds.
  *   GROUP 0  (default)      : everything.
@@ -21,15 +21,10 @@
 #define GROUP 0
 #endif
 #if GROUP == 1
-/* value group: the protocol assertions inside ELEM_* are not emitted (the state machine still runs) */
-#pragma push_macro("__CPROVER_assert")
-#undef __CPROVER_assert
-#define __CPROVER_assert(c, m) ((void)0)
-#include "elem_lifetime.h"
-#pragma pop_macro("__CPROVER_assert")
-#else
-#include "elem_lifetime.h"
+/* value group: no slot is tracked, so the protocol assertions inside ELEM_* hold trivially (the state machine still runs) */
+#define ELEM_TRACKED(q) 0
 #endif
+#include "elem_lifetime.h"
 #define C14_ON(...) { __VA_ARGS__ }
 #define C14_OFF(...) { }
 #if GROUP == 0 || GROUP == 1
@@ -81,10 +76,10 @@ ELEM g_old_k;      /* content of slot g_k of the object under test before the ca
 
 /* SV(v), stated for one slot k (ghost index):  m_size <= N, slot k LIVE below m_size and RAW from m_size on */
 #define SV_SIZE_OK(v) ((v)->m_size <= CAP)
-#define SV_SLOT_OK(v, k) ((k) >= CAP || ((k) < (v)->m_size ? (v)->_data[k].g_state == ELEM_LIVE : (v)->_data[k].g_state == ELEM_RAW))
+#define SV_SLOT_OK(v, k) ((k) >= CAP || ((k) < (v)->m_size ? ELEM_ST(&(v)->_data[k]) == ELEM_LIVE : ELEM_ST(&(v)->_data[k]) == ELEM_RAW))
 /* a slot of a possibly moved-from container: constructed objects (LIVE or MOVED-from) below m_size, RAW from m_size on */
-#define SV_SLOT_VALID(v, k) ((k) >= CAP || ((k) < (v)->m_size ? ((v)->_data[k].g_state == ELEM_LIVE || (v)->_data[k].g_state == ELEM_MOVED) \
-                                                            : (v)->_data[k].g_state == ELEM_RAW))
+#define SV_SLOT_VALID(v, k) ((k) >= CAP || ((k) < (v)->m_size ? (ELEM_ST(&(v)->_data[k]) == ELEM_LIVE || ELEM_ST(&(v)->_data[k]) == ELEM_MOVED) \
+                                                            : ELEM_ST(&(v)->_data[k]) == ELEM_RAW))
 #define C14_IMP(a, b) (!(a) || (b))
 #define C14_MIN(a, b) ((a) < (b) ? (a) : (b))
 
